@@ -66,7 +66,10 @@ Inductive C07_case :=
 | KClip (x : list Q) (c : Q) (norm : Q)
 | KWeight (x : list Q) (w : Q)
 | KInvWeight (eq_variant : bool) (x : list Q) (w : Q)
-| KAdd (a b : list Q).
+| KAdd (a b : list Q)
+(* inputs with non-finite coordinates (None): the translated functions are applied to them as they are *)
+| KMeanNQ (cl : list (list NanQ.t * NanQ.t))
+| KSumNQ (trees : list (list NanQ.t)).
 
 (* tolerance 0 = exact comparison; result None = the implementation returned None *)
 Record C07_obs := mkO07 { o_tol : Q; o_res : option (list NanQ.t) }.
@@ -81,6 +84,8 @@ Definition C07_run (c : C07_case) : option tree :=
   | KInvWeight false x w => Some (tree_inverse_weight (vlift x) (Some w))
   | KInvWeight true x w => Some (tree_inverse_weight_eq (vlift x) (Some w))
   | KAdd a b => Some (tree_add (vlift a) (vlift b))
+  | KMeanNQ cl => tree_mean cl
+  | KSumNQ trees => tree_sum trees
   end.
 
 (* side condition checked inside Coq: the norm handed to the model is the norm *)
